@@ -291,6 +291,13 @@ theorem oss_is_conforming_source (c : Bytes) (segs : List Bytes) (h : Items c se
       absRun (ossPol segs) cs { data := segs.flatten, granted := 0, reqs := 0, failAt := none, limit := none } :=
   ⟨ossPol_conforming segs, calls_sim segs cs _ _ (sim_new_cons c segs h)⟩
 
+/-- …and for a primitive octet string: the whole content is granted from the start -/
+theorem oss_prim_is_conforming_source (b : Bytes) (cs : List Call) :
+    Conforming (ossPol [b]) ∧
+    ossRun cs (OSS.new (.prim b)) =
+      absRun (ossPol [b]) cs { data := b, granted := b.length, reqs := 0, failAt := none, limit := none } :=
+  ⟨ossPol_conforming [b], calls_sim [b] cs _ _ (sim_new_prim b)⟩
+
 /-- non-vacuity, by kernel evaluation: `24 80 04 02 61 62 04 01 63 00 00` content = two segments -/
 example : ossRun [.request 1, .advance 1, .request 3, .advance 2, .request 1] (OSS.new (.cons [0x04, 0x02, 0x61, 0x62, 0x04, 0x01, 0x63])) =
     [.granted 2 [0x61, 0x62], .advanced [0x62], .granted 2 [0x62, 0x63], .advanced [], .granted 0 []] := by rfl
